@@ -89,6 +89,15 @@ def gen(ctx):
                             "cb_raise": set() if raise_at is None else {raise_at}})
                 # the same history without a callback: nothing is consumed, nothing is called
                 out.append({"D": 400, "me": "a", "cancel": cancel, "arrivals": arr, "has_cb": False})
+    # 3b. progress values that are NOT strictly increasing: repeated, decreasing, missing field (0) after others
+    for vals in ([1, 1], [2, 1], [1, 0], [4, 4, 4], [1, 2, 2, 3], [3, 2, 1, 0], [0, 0], [5, 1, 5], [6, 0, 6]):
+        for spacing in (0, 1, 50):
+            arr, t = [], 3
+            for v in vals:
+                arr.append((t, ("prog", True, v)))
+                t += spacing
+            arr.append((t, ("res", ("me",), 9)))
+            out.append({"D": 800, "me": "a", "cancel": None, "arrivals": arr, "has_cb": True})
     # 4. seeded mixtures
     for _ in range(ctx.budget(1500, 40000)):
         D = rng.choice((60, 100, 137, 250, 1000))
